@@ -441,11 +441,14 @@ def parse_single_name_into_parts(name, strict=True):
 
             # At least one lowercase letter.
             if 0 in cases:
-                # Index from end of list of first and last lowercase word.
+                # Index from end of list of the first lowercase word, and of the
+                # last lowercase word before the final word (the final word always
+                # belongs to last, so von is empty if there is no such word).
                 firstl = cases.index(0) - len(cases)
-                lastl = -cases[::-1].index(0) - 1
-                if lastl == -1:
-                    lastl -= 1  # Cannot consume the rest of the string.
+                if 0 in cases[:-1]:
+                    lastl = -cases[-2::-1].index(0) - 2
+                else:
+                    lastl = -2
 
                 # Pull the parts out.
                 parts.first = p0[:firstl]
